@@ -269,32 +269,71 @@ for _n, _c in {"eq": "eq", "ne": "ne", "lt": "lt", "le": "le", "gt": "gt", "ge":
     PRIMS[_n] = (lambda c: (lambda ctx, eqn, ins: [S.compare(c, ins[0], ins[1])]))(_c)
 
 
+# total-order comparisons (sort comparators): equal to lt / le on the non-NaN values of the domain
+PRIMS["lt_to"] = PRIMS["lt"]
+PRIMS["le_to"] = PRIMS["le"]
+
+
 @prim("and")
 def _and(ctx, eqn, ins):
+    if ins[0].kind == "i":
+        return [S.map2(lambda a, b: S.i_bit("and", a, b, ins[0].dtype), ins[0], ins[1], ins[0].dtype)]
     if ins[0].kind != "b":
-        raise NotEncodable("bitwise and on ints")
+        raise NotEncodable("bitwise and on floats")
     return [S.map2(S.b_and, ins[0], ins[1], np.bool_)]
 
 
 @prim("or")
 def _or(ctx, eqn, ins):
+    if ins[0].kind == "i":
+        return [S.map2(lambda a, b: S.i_bit("or", a, b, ins[0].dtype), ins[0], ins[1], ins[0].dtype)]
     if ins[0].kind != "b":
-        raise NotEncodable("bitwise or on ints")
+        raise NotEncodable("bitwise or on floats")
     return [S.map2(S.b_or, ins[0], ins[1], np.bool_)]
 
 
 @prim("xor")
 def _xor(ctx, eqn, ins):
+    if ins[0].kind == "i":
+        return [S.map2(lambda a, b: S.i_bit("xor", a, b, ins[0].dtype), ins[0], ins[1], ins[0].dtype)]
     if ins[0].kind != "b":
-        raise NotEncodable("bitwise xor on ints")
+        raise NotEncodable("bitwise xor on floats")
     return [S.map2(S.b_xor, ins[0], ins[1], np.bool_)]
 
 
 @prim("not")
 def _not(ctx, eqn, ins):
+    if ins[0].kind == "i":
+        return [S.map1(lambda a: S.i_not(a, ins[0].dtype), ins[0])]
     if ins[0].kind != "b":
-        raise NotEncodable("bitwise not on ints")
+        raise NotEncodable("bitwise not on floats")
     return [S.map1(S.b_not, ins[0])]
+
+
+def _jax_shift(kind):
+    def f(ctx, eqn, ins):
+        x, n = ins
+        if x.kind != "i":
+            raise NotEncodable("shift on non-integers")
+        bits = np.dtype(x.dtype).itemsize * 8
+
+        def g(a, k):
+            # XLA: a shift by >= width (or negative) yields 0 (arithmetic: the sign fill); keep it in-domain only
+            if not S.is_sym(k):
+                if int(k) < 0 or int(k) >= bits:
+                    raise DomainError("shift amount outside [0, bits)")
+            else:
+                ctx.assume(S.b_and(S.c_ge(k, 0, "i"), S.c_lt(k, bits, "i")))
+            return S.i_shift(kind, a, k, x.dtype)
+
+        return [S.map2(g, x, n, x.dtype)]
+
+    return f
+
+
+PRIMS["shift_left"] = _jax_shift("left")
+PRIMS["shift_right_logical"] = _jax_shift("right_logical")
+PRIMS["shift_right_arithmetic"] = _jax_shift("right_arithmetic")
 
 
 @prim("select_n")
